@@ -270,6 +270,27 @@ func TestC05(t *testing.T) {
 			break
 		}
 	}
+	// observers of a nil map (conversion included) do not panic and see an empty map
+	func() {
+		defer func() {
+			if p := recover(); p != nil {
+				failures++
+				t.Errorf("an observer of a nil map panicked: %v", p)
+			}
+		}()
+		var nilMap *ordered.Map[string, any]
+		cases++
+		if got, ok := ordered.ToMapRecursive(nilMap).(map[string]any); !ok || len(got) != 0 || nilMap.Len() != 0 || len(nilMap.ToMap()) != 0 || !ordered.Equal(nilMap, nilMap) {
+			failures++
+			t.Errorf("a nil map does not look empty to its observers")
+		}
+		outer := ordered.NewMap[string, any](0)
+		outer.Set("inner", nilMap)
+		if m, ok := ordered.ToMapRecursive(outer).(map[string]any); !ok || len(m) != 1 {
+			failures++
+			t.Errorf("ToMapRecursive of a map holding a nil map: %v", m)
+		}
+	}()
 	// the encodings against the model itself (not against another ordered map), over keys that
 	// look like other YAML / JSON types or like syntax: JSON text exactly, YAML at node level
 	// (every key a string scalar with the key's text, in order)
